@@ -3,3 +3,4 @@ pub mod gen;
 pub mod oracle;
 pub mod props;
 pub mod refmodel;
+pub mod watchdog;
